@@ -323,6 +323,16 @@ class Check:
         self.required_points = []     # coverage points that must be >0 overall
 
     def add(self, run):
+        # The wall-clock watchdog is only a backstop (its firing is "inconclusive", never a violation; real hangs are
+        # found by the logical-deadlock supervisor within seconds), so it is made generous: the machine may be loaded
+        # by other checks, builds or sanitizer runs.
+        if "--watchdog" in run.args:
+            i = run.args.index("--watchdog")
+            try:
+                w = int(run.args[i + 1])
+                run.args[i + 1] = str(max(w * (8 if self.tier == "thorough" else 3), 600 if self.tier == "thorough" else 180))
+            except (ValueError, IndexError):
+                pass
         self.runs.append(run)
         return run
 
@@ -353,8 +363,11 @@ class Check:
         t = time.time()
         scale = {"asan": 3, "tsan": 6}.get(run.variant, 1)
         try:
+            tmo = run.timeout
+            if "--watchdog" in run.args:
+                tmo = max(tmo, int(run.args[run.args.index("--watchdog") + 1]) + 60)
             p = subprocess.run(cmd, env=env, stdout=subprocess.PIPE, stderr=subprocess.PIPE,
-                               timeout=run.timeout * scale, cwd=VERIF)
+                               timeout=tmo * scale, cwd=VERIF)
             run.rc = p.returncode
             run.stdout = p.stdout.decode(errors="replace")
             run.stderr = p.stderr.decode(errors="replace")
